@@ -397,7 +397,9 @@ func seqProfile0(prop, tier string) *SeqProfile {
 			design = []DesignRun{
 				{Module: "KlevFSDur.tla", Cfg: tierS(tier, "fsdur_q.cfg", "fsdur_t.cfg"), Workers: 16, Timeout: 40 * time.Minute,
 					Note: "KlevFSDur.tla: KlevFS + durable lengths (fold of fsync/create/rename/remove over the plans); PowerLoss1 = every plan prefix x every cut of every file between its durable and written length recovers to a prefix of what was written containing everything below the acknowledged offset"},
-				{Module: "KlevFSDur.tla", Cfg: "fsdur_auto_q.cfg", Workers: 16, Timeout: 20 * time.Minute, Note: "the same with AutoSync (every Publish acknowledges)"}}
+				{Module: "KlevFSDur.tla", Cfg: "fsdur_auto_q.cfg", Workers: 16, Timeout: 20 * time.Minute, Note: "the same with AutoSync (every Publish acknowledges)"},
+				{Module: "KlevFSDur.tla", Cfg: "fsdur_no_rcfsync.cfg", Workers: 8, Timeout: 10 * time.Minute, Expect: "PowerLoss2",
+					Note: "negative control: Recover renames its copy over the head log without fsyncing it (seeded change S131 at design level): a second power loss inside or after the recovery loses acknowledged messages (PowerLoss2: every prefix of the recovery plan of every first image, whole-item and torn cuts, cut back to what is durable and recovered again)"}}
 		}
 		if !ploss {
 			design = []DesignRun{{Module: "KlevFS.tla", Cfg: tierS(tier, "fs_q.cfg", "fs_t.cfg"), Workers: 16, Timeout: 30 * time.Minute,
